@@ -422,9 +422,11 @@ def build_item(repo, ext, unit_path):
                 if nm not in fn_spans:
                     raise AnchorLost('method %s not found in %s' % (nm, ext.anchor))
         if ext.ghost_items:
-            first = ext.ghost_items[0][1].strip()
-            if not re.match(r'(pub\s+)?(open\s+|closed\s+|uninterp\s+)?(spec|proof)\s+fn\b', first):
-                raise UnitError('T7 may only insert spec/proof items')
+            for _, gl in ext.ghost_items:
+                gl = gl.split('//')[0]
+                for mfn in re.finditer(r'\bfn\s+[A-Za-z_]', gl):
+                    if not re.search(r'(spec|proof)\s+$', gl[:mfn.start()]):
+                        raise UnitError('T7 may only insert spec/proof items: %r' % gl.strip())
             gi = '\n' + '\n'.join('    ' + l.rstrip() for _, l in ext.ghost_items) + '\n'
             edits.append((bo + 1, bo + 1, gi))
         scopes = [(ext.fns[nm], fn_spans[nm]) for nm in ext.fns if nm in fn_spans]
